@@ -551,7 +551,7 @@ func writeEvidence(pr *PropertyRun, prop, tier string, seed, discharged, nviol i
 	}
 	assumptions := []string{
 		"sequential semantics: locks, wait groups and semaphores are no-ops; goroutines started with `go` are not executed",
-		"termination is not proved (partial correctness)",
+		"termination is proved only for the loops that carry a variant (`loop N decreases`); range loops over slices and maps end by construction, every other for loop is listed below as not claimed (partial correctness)",
 		"integers are mathematical; each arithmetic operation and narrowing conversion in a function under contract carries its own no-overflow/lossless obligation (kind ovf/conv), claimed only where discharged",
 		"strings are an uninterpreted sort (length, concatenation length, literal distinctness only); floats are uninterpreted",
 		"preconditions (`requires`) of functions under contract are proved at call sites that are themselves under contract and assumed at all other call sites",
